@@ -128,6 +128,18 @@ func (j *evalJudge) judge(t *term.Term, styles []int, seeds []uint64, inject int
 					c.Count("nilsafe_tainted_disagreement_not_judged", 1)
 					continue
 				}
+				if t.HasElvis() && ro.Panic == nil {
+					// recorded finding: the condition of `a ?: b` is evaluated
+					// twice. Recognised only when the run agrees in every
+					// respect with the reference under exactly that deviation.
+					p2 := NewEnvPair(styles[ei], seeds[ei])
+					p2.Reset(k)
+					r2 := ref.EvalElvisTwice(t, p2.Ref, defaultBudget)
+					if r2.Unspec == "" && (r2.Fail != nil) == ro.Failed() && (r2.Fail != nil || mon.Canon(r2.Value) == mon.Canon(ro.Val)) && p2.RefLog.String() == pair.RealLog.String() {
+						c.Violate("elvis-condition-evaluated-twice", fmt.Sprintf("%s: real=%s ref=%s; the run equals the reference with the condition of ?: evaluated twice", verdict, ro, refOutcome(rr)), j.caseOf(t, src, oi, pair, k, rr, ro))
+						continue
+					}
+				}
 				// localise: smallest closed sub-term that already disagrees
 				culprit := t
 				for _, s := range closedSubterms(t) {
